@@ -42,13 +42,13 @@ def symmetry(ctx, rep, rule, method):
         if fn is None:
             raise AnalysisError(f'anchor vanished: {fam}.{method}')
         names = split_names(prog, fn)
+        n += 1
         if names is None:
             rep.undecided(rule, fn, fn.node.name, 'U, V = split_matrix(X) not found', construct=f'{fam}.{method}')
             continue
         u, v = names
         a = function_nf(prog, fn, rename={u: 'U', v: 'V'}, batch_names=('U', 'V'), skip_calls=('check_fit',))
         b = function_nf(prog, fn, rename={u: 'V', v: 'U'}, batch_names=('U', 'V'), skip_calls=('check_fit',))
-        n += 1
         if 'opaque' in repr(a):
             rep.undecided(rule, fn, fn.node.name, 'the body contains a construct the normal form does not model', construct=f'{fam}.{method}')
         else:
